@@ -51,6 +51,8 @@ MARKER_PROPS = {
     "VF:huffman.read_differs_from_pushed": ["C06", "C01", "C02"],
     "VF:huffman.raw_roundtrip": ["C06", "C01"],
     "VF:huffman.after_clear_not_raw": ["C06", "C08"],
+    "VF:huffman.stats_survived_clear": ["C06", "C08"],
+    "VF:coded_composite.": ["C10", "C01"],
     "VF:huffman.forms.": ["C20"],
     "VF:dictionary.": ["C07"],
     "VF:dictionary.read_differs_from_pushed": ["C07", "C01", "C04"],
